@@ -266,8 +266,15 @@ func checkABI(p *Prog, cr *compRes, script []byte, di *compiler.DebugInfo, mf in
 		cts = append(cts, t)
 	}
 	sort.Ints(cts)
+	single := map[int]bool{}
 	for _, t := range cts {
 		if _, ok := startSet[t]; !ok {
+			if starts[t] == opcode.RET {
+				// a compiled function that is a lone RET has Start == End and is skipped by addMethodsToDebugInfo
+				single[t] = true
+				fails = append(fails, fmt.Sprintf("debug-single-instr-method the function at %d (a single RET, target of a CALL) is missing from the debug info", t))
+				continue
+			}
 			fails = append(fails, fmt.Sprintf("debug-call-target CALL to %d which is not the start of any method in the debug info", t))
 		}
 	}
@@ -286,7 +293,7 @@ func checkABI(p *Prog, cr *compRes, script []byte, di *compiler.DebugInfo, mf in
 				break
 			}
 		}
-		if !in {
+		if !in && !single[ip] {
 			fails = append(fails, fmt.Sprintf("debug-range-gap instruction at %d (%s) belongs to no method range", ip, starts[ip]))
 			break
 		}
@@ -299,7 +306,7 @@ func checkABI(p *Prog, cr *compRes, script []byte, di *compiler.DebugInfo, mf in
 				next = order[i+1]
 			}
 		}
-		if next >= 0 {
+		if next >= 0 && !single[next] {
 			if _, ok := startSet[next]; !ok {
 				fails = append(fails, fmt.Sprintf("debug-range-end method %s ends at %d but %d does not start a method", r.id, r.e, next))
 			}
